@@ -9,6 +9,7 @@ import (
 	"math/big"
 	"sort"
 	"strings"
+	"sync"
 	"time"
 	"unicode/utf8"
 
@@ -189,6 +190,9 @@ func GenProd(r *sx.Rng, idx int) sx.Tree {
 				continue
 			}
 			calls = append(calls, sx.T(one.At(0), one.At(2)))
+		}
+		if r.Chance(30) {
+			return sx.T(sx.L(3), ct, sx.T(calls...), sx.Ints(r.Range(1, 3)))
 		}
 		return sx.T(sx.L(3), ct, sx.T(calls...))
 	}
@@ -600,6 +604,31 @@ func RunProd(in sx.Tree) sx.Tree {
 func runProdSeq(in sx.Tree) sx.Tree {
 	calls := in.At(2).Kids
 	sp := &scriptedProducer{ch: make(chan *kafka.Message, len(calls)+8)}
+	// optional 4th component (cap): the client's queue holds only cap records and is drained slowly by a concurrent
+	// reader (a broker that is slow to keep up): calls must wait for room, nothing may be lost or reordered
+	var drained []*kafka.Message
+	var dmu sync.Mutex
+	stop := make(chan struct{})
+	readerDone := make(chan struct{})
+	slow := in.Len() >= 4 && in.At(3).Len() >= 1 && in.At(3).At(0).Int() >= 1
+	if slow {
+		sp = &scriptedProducer{ch: make(chan *kafka.Message, int(in.At(3).At(0).Int()))}
+		go func() {
+			defer close(readerDone)
+			time.Sleep(2 * time.Millisecond)
+			for {
+				select {
+				case m := <-sp.ch:
+					dmu.Lock()
+					drained = append(drained, m)
+					dmu.Unlock()
+					time.Sleep(150 * time.Microsecond)
+				case <-stop:
+					return
+				}
+			}
+		}()
+	}
 	ep := kafkaproducer.NewErrorProducerV(sp, string(in.At(1).ByteSlice()))
 	type callRes struct {
 		panicked, resNil, report, form bool
@@ -628,9 +657,21 @@ func runProdSeq(in sx.Tree) sx.Tree {
 			r.resNil, r.err = res == nil, errEnum(err)
 		}()
 	}
-	k := 0
+	if slow {
+		// every call has returned: let the reader take what is still queued, then stop it
+		for i := 0; i < 2000 && len(sp.ch) > 0; i++ {
+			time.Sleep(100 * time.Microsecond)
+		}
+		time.Sleep(time.Millisecond)
+		close(stop)
+		<-readerDone
+	}
+	queue := drained
 	for len(sp.ch) > 0 {
-		m := <-sp.ch
+		queue = append(queue, <-sp.ch)
+	}
+	k := 0
+	for _, m := range queue {
 		for k < len(rs) && (rs[k].panicked || rs[k].err != 0) {
 			k++
 		}
